@@ -1,0 +1,25 @@
+//go:build verif
+
+package chpool
+
+// Machine-checked contracts for package chpool (comment-only; read by /verif/govc).
+
+//@ import puddle github.com/jackc/puddle/v2
+//@ import ch github.com/ClickHouse/ch-go
+
+// ---------------------------------------------------------------------------
+// C11: a handle owns one acquired puddle resource; Release gives it up exactly once
+
+//@ -- holds(c): the handle owns an acquired resource whose value carries a client
+//@ spec func holds(c Val) Bool = c.res != nil && c.res.acquired
+
+//@ contract (c *Client) Release() props(C11)
+//@   requires c != nil && c.p != nil
+//@   requires c.res != nil ==> c.res.acquired && c.res.value != nil && c.res.value.client != nil
+//@   modifies c.res, old(c.res).acquired, old(c.res).releases, old(c.res).destroys, old(c.res).value.client.mux
+//@   ensures c.res == nil {handle-cleared}
+//@   ensures old(c.res) == nil ==> true {released-handle-is-a-no-op}
+//@   ensures old(c.res) != nil ==> !old(c.res).acquired {resource-given-up}
+//@   ensures old(c.res) != nil ==> old(c.res).releases + old(c.res).destroys == old(old(c.res).releases) + old(old(c.res).destroys) + 1 {exactly-once}
+//@   ensures old(c.res) != nil && old(c.res).value.client.closed ==> old(c.res).destroys == old(old(c.res).destroys) + 1 {closed-client-destroyed}
+//@   ensures old(c.res) != nil && elapsedSince(old(c.res).csec, old(c.res).cnsec) > c.p.options.MaxConnLifetime ==> old(c.res).destroys == old(old(c.res).destroys) + 1 {expired-destroyed}
